@@ -1,5 +1,5 @@
 """C09 — container series keep their length and dtype under every assignment history."""
-import itertools, json
+import itertools, json, re
 
 import numpy as np
 
@@ -318,6 +318,11 @@ def misfit(item, n, existing):
     return None
 
 
+def mentions(message, word):
+    """`word` occurs in `message` as a whole identifier (quote style and wording are not the property's business)."""
+    return re.search(r'(?<![A-Za-z0-9_])' + re.escape(word) + r'(?![A-Za-z0-9_])', message) is not None
+
+
 class Oracle:
     """C09 restated against the object, step by step.  Independent of the Lean model."""
 
@@ -422,7 +427,7 @@ class Oracle:
                     self.violate('strict-bypassed', f'strict=True: obj.{name} = ... did not raise', k)
                 elif out == 'AttributeError':
                     alts = cc.closest(name, [d for d in decl if d in before or d in obj.index])
-                    if len(alts) == 1 and f"'{alts[0]}'" not in str(exc):
+                    if len(alts) == 1 and not mentions(str(exc).replace(name, '', 1), alts[0]):
                         self.violate('strict-no-suggestion', f'closest variable to {name!r} is {alts[0]!r}; message: {exc}', k)
             if op == 'setAttr' and name in before and scalar_kind(item['v']) in NUMERIC and out != 'ok':
                 self.violate('strict-blocks-existing', f'strict=True: update of existing variable {name} raised {out}', k)
